@@ -292,6 +292,10 @@ def check_explicit_reference(run, A):
 
 def check(run):
     A = run.A
+    from ..opt import check_optional_truthiness, check_params_reach, check_forwarding
+    check_forwarding(run, A, ('pb_bss.extraction.beamformer', 'pb_bss.math.solve'))
+    check_params_reach(run, A, ('pb_bss.extraction.beamformer', 'pb_bss.math.solve'))
+    check_optional_truthiness(run, A, ('pb_bss.extraction.beamformer', 'pb_bss.math.solve'))
     check_explicit_reference(run, A)
     run.explanation = (
         'get_bf_vector is specialised on each of the names it accepts (constant propagation through endswith / slicing / split / `in` tests prunes the if-chain); the primitives '
